@@ -78,6 +78,14 @@ def delayed(config, tower, met_index=0, surface_flux=None, cache=None):
     return orig(config, tower, met_index=met_index, surface_flux=surface_flux, cache=cache)
 itf.run_bldfm_single = delayed
 try:
+    if case.get("prelude_flux"):
+        # an earlier parallel run in the same process that was handed a surface flux (documented: ignored by the workers);
+        # nothing of it may reach the run under test
+        try:
+            itf.run_bldfm_parallel(cfg, max_workers=2, parallel_over="time",
+                                   surface_flux=np.full((cfg.domain.ny, cfg.domain.nx), 7.0))
+        except Exception:
+            pass
     res = itf.run_bldfm_parallel(cfg, max_workers=case["workers"], parallel_over=case["strategy"])
     out["parallel"] = [[name, [canon(r) for r in series]] for name, series in res.items()]
 except ValueError as e:
@@ -163,7 +171,7 @@ def o_parallel(case):
 def gen_case(rng, k):
     strategy = ["towers", "time", "both"][k % 3] if rng.random() < 0.93 else "bogus"
     return dict(towers=int(rng.integers(1, 4)), steps=int(rng.integers(1, 6)), strategy=strategy, workers=int(rng.choice([1, 2, 3, 4, 5, 8, 12])),
-                order=str(rng.choice(["hash", "reverse", "perm", "perm"])),
+                order=str(rng.choice(["hash", "reverse", "perm", "perm"])), prelude_flux=bool(rng.random() < 0.3),
                 parent_threads=int(rng.choice([1, 4])), cache=bool(rng.random() < 0.5), footprint=bool(rng.random() < 0.7),
                 repeat_met=bool(rng.random() < 0.5), timestamps=str(rng.choice(["none", "ascending", "wrap", "descending", "duplicate"])), cseed=int(rng.integers(1 << 30)),
                 dseed=int(rng.integers(1 << 30)), max_delay=float(rng.choice([0.0, 0.3, 0.6])))
